@@ -182,14 +182,24 @@ func newFixture(sc scenario) *fixture {
 type labClient struct {
 	*core.Client
 	closed int64
+	// hook, when set, runs inside the transport's OnClose callback, i.e. at the moment the library closes one of
+	// this client's connections
+	hook atomic.Value // func()
+}
+
+func (c *labClient) onClose() {
+	atomic.AddInt64(&c.closed, 1)
+	if f, _ := c.hook.Load().(func()); f != nil {
+		f()
+	}
 }
 
 func newClient(url string) *labClient {
 	c := &labClient{Client: core.NewClient(url)}
 	c.Timeout = sentinelTimeout
-	rpc.SocketTransport(c.Client).OnClose = func(net.Conn) { atomic.AddInt64(&c.closed, 1) }
-	rpc.UDPTransport(c.Client).OnClose = func(net.Conn) { atomic.AddInt64(&c.closed, 1) }
-	rpc.WebSocketTransport(c.Client).OnClose = func(*websocket.Conn) { atomic.AddInt64(&c.closed, 1) }
+	rpc.SocketTransport(c.Client).OnClose = func(net.Conn) { c.onClose() }
+	rpc.UDPTransport(c.Client).OnClose = func(net.Conn) { c.onClose() }
+	rpc.WebSocketTransport(c.Client).OnClose = func(*websocket.Conn) { c.onClose() }
 	return c
 }
 
